@@ -414,6 +414,9 @@ def judge_poll(prop_c08, prop_c09, op, spec, pre, post, pending, vs, obs):
         V(prop_c08, "returned-at-unexplained-time", "events at %d but nothing happened then" % t1)
 
 
+WAIT_LATE_TOL = 3
+
+
 def judge_wait(op, hs_pre, hs_post, vs, obs):
     to = op["to"]
     t0 = op["t0"]
@@ -442,7 +445,9 @@ def judge_wait(op, hs_pre, hs_post, vs, obs):
             V("timeout-from-infinite", "ETIMEDOUT from an unbounded wait")
         elif t1 < t0 + eff:
             V("timeout-early", "ETIMEDOUT at %d, not before %d" % (t1, t0 + eff))
-        elif t1 > t0 + eff:
+        elif t1 > t0 + eff + WAIT_LATE_TOL:
+            # the contract gives the lower bound ("no earlier than its timeout"); past it only clock granularity
+            # is granted (an implementation that resumes an interrupted wait recomputes what remains from a ms clock)
             V("timeout-late", "ETIMEDOUT at %d, bound %d" % (t1, t0 + eff))
         if end is not None and end <= t1:
             V("timeout-although-exited", "ETIMEDOUT at %d but the child ended at %d" % (t1, end))
